@@ -149,6 +149,7 @@ class DictCache(collections.abc.MutableMapping):
             self.short_term_cache[key] = val
 
     def __delitem__(self, key):
+        self.short_term_cache.pop(key, None)
         if key in self.long_term_keys:
             self.long_term_keys.remove(key)
             self.long_term_storage.delete(key)
